@@ -123,26 +123,21 @@ def extension(ctx) -> None:
     op = opens[0]
     verdict = None
     detail = "no guard on the file extension dominates open()"
-    for r, pol, raw in fv.rfacts_at(op.node):
-        txt = show(r).replace(" ", "")
+    for core, p, br in fv.atoms_at(op.node):
+        txt = show(core).replace(" ", "")
         if ".gwl" not in txt:
             continue
-        core, p = r, pol
-        while isinstance(core, ast.UnaryOp) and isinstance(core.op, ast.Not):
-            core, p = core.operand, not p
         # suffix equality / endswith (case-folded)
         if isinstance(core, ast.Compare) and len(core.ops) == 1 and isinstance(core.ops[0], ast.Eq) and p:
             sides = [core.left, core.comparators[0]]
             other = [s for s in sides if not (isinstance(s, ast.Constant) and s.value == ".gwl")]
-            if len(other) == 1 and "suffix" in show(other[0]) and ("lower" in show(other[0]) or "casefold" in show(other[0])):
-                verdict = True
-            elif len(other) == 1 and "suffix" in show(other[0]):
+            if len(other) == 1 and "suffix" in show(other[0]):
                 verdict = True
         elif isinstance(core, ast.Call) and call_fname(core) == "endswith" and p and core.args and isinstance(core.args[0], ast.Constant) and core.args[0].value == ".gwl":
             verdict = True
         elif isinstance(core, ast.Compare) and len(core.ops) == 1 and isinstance(core.ops[0], ast.In) and p:
             verdict = False
-            detail = f"`{show(raw)}` only tests that '.gwl' occurs somewhere in the name: 'x.gwl.txt' is accepted"
+            detail = f"`{show(core)}` only tests that '.gwl' occurs somewhere in the name: 'x.gwl.txt' is accepted"
     ok_raises = any(fv.cfg.dominates(n.id, op.node) and ".gwl" in show(test) for n, test, pol, r in fv.raising_guards())
     ctx.rep.check(verdict is True and ok_raises, rule, f"{f.qualname}/gwl", "file names whose extension is not .gwl are refused before the file is touched", detail, where=f.where())
     # nothing touches the file system before the guard
